@@ -581,6 +581,7 @@ func (x *Exec) step(st *State, fr *Frame, in ssa.Instruction) {
 		mc := x.freshMapContent(st, mt, "newmap")
 		mc.Nil = TFalse
 		mc.Card = IntLit(0)
+		mc.ValFresh = TTrue
 		st.Assume(x.mapEmpty(mc, mt))
 		st.Heap[o] = mc
 		x.countAllocN(st, IntLit(48))
@@ -1012,6 +1013,12 @@ func (x *Exec) binop(st *State, in ssa.Instruction, o token.Token, a, b Value, x
 			return Div(at, Pow2(int(bt.Num.Int64()))) // floor division == arithmetic shift for negatives too
 		}
 	case token.AND:
+		// x & (2^a - 2^b): a contiguous block of ones from bit b to bit a-1
+		for _, pr := range [][2]*Term{{at, bt}, {bt, at}} {
+			if a, b, ok := blockMask(pr[1]); ok && !signed && b > 0 {
+				return Sub(Mod(pr[0], Pow2(a)), Mod(pr[0], Pow2(b)))
+			}
+		}
 		// x & (2^k - 1)
 		if m, ok := maskBits(bt); ok && !signed {
 			return Mod(at, Pow2(m))
@@ -1066,6 +1073,20 @@ func (x *Exec) posOf(in ssa.Instruction) string {
 		return "?"
 	}
 	return x.W.pos(in.Pos())
+}
+
+// blockMask recognises 2^a - 2^b (a > b >= 0).
+func blockMask(t *Term) (int, int, bool) {
+	if t.Op != "int" || t.Num.Sign() <= 0 {
+		return 0, 0, false
+	}
+	b := int(t.Num.TrailingZeroBits())
+	hi := new(big.Int).Rsh(t.Num, uint(b))
+	n := new(big.Int).Add(hi, big.NewInt(1))
+	if new(big.Int).And(n, hi).Sign() == 0 {
+		return b + n.BitLen() - 1, b, true
+	}
+	return 0, 0, false
 }
 
 func singleBit(t *Term) (int, bool) {
@@ -1326,6 +1347,9 @@ func (x *Exec) convert(st *State, in ssa.Instruction, v Value, from, to types.Ty
 	case isString(to) && isSliceOfByte(from):
 		s := v.(*SliceVal)
 		c := x.sliceBytes(st, s)
+		if x.arr {
+			st.Assume(And(Eq(App("len", SInt, c), s.Len), Le(IntLit(0), s.Len)))
+		}
 		x.countAllocN(st, Len(c))
 		return c
 	case isSliceOfByte(to) && isString(from):
